@@ -39,9 +39,12 @@ def excName : Exc → String
 def fnv1a (s : String) : UInt64 :=
   s.toUTF8.foldl (fun h b => (h ^^^ b.toUInt64) * 1099511628211) 14695981039346656037
 
-/-- names bound in module `m`, sorted -/
+/-- names bound in module `m`, sorted (the row is extracted once; bits are tested on the small row) -/
 def sortedNames (s : State) (m : Mod) : List String :=
-  let ids := (List.range Gen.identNames.size).filter (fun n => s.bound g m n)
+  let rlo := Mat.row s.lo g.nRel m
+  let rhi := Mat.row s.hi g.nHi m
+  let ids := (List.range Gen.identNames.size).filter (fun n =>
+    if n < g.nRel then rlo.testBit n else rhi.testBit (n - g.nRel))
   ((ids.map identName).toArray.qsort (· < ·)).toList
 
 def showNs (s : State) (m : Mod) : String :=
